@@ -518,7 +518,8 @@ class Fn:
         name = self.locals[n][1]
         if n != 0 and n <= self.arg_count:
             e = E("param", n - 1, name)
-            # parameters may be reassigned, rare; ignore
+            # NOTE: a parameter re-assigned in the body (`mut x`; `x = ..`) still renders as the parameter;
+            # rules that depend on such a value read `reassigned_params()` / defs() explicitly.
             self._expr_cache[key] = e
             return e
         if n in stack or depth > 40:
@@ -552,6 +553,11 @@ class Fn:
         if not stack:
             self._expr_cache[key] = e
         return e
+
+    def reassigned_params(self):
+        """Parameters that the body assigns to (their `expr` is the incoming value only)."""
+        return [self.locals[n][1] or "_%d" % n for n in range(1, self.arg_count + 1)
+                if any(d[2] == () for d in self.defs().get(n, []))]
 
     def _rvalue_expr(self, rv, depth, stack):
         if isinstance(rv, CallSite):
